@@ -182,11 +182,7 @@ func TestOperators(t *testing.T) {
 		for _, b := range []string{"len", "first", "rest", "catch", "print", "println", "error", "del", "quote", "unquote"} {
 			inputs = append(inputs, b+"("+v+")")
 		}
-		if pbt.KnownOpen(kInPlace) && (v == "m" || v == "arr") {
-			pbt.Excluded(kInPlace) // storing a large container into itself builds a cycle (see known.go)
-		} else {
-			inputs = append(inputs, "zz = "+v+"; zz["+v+"] = "+v)
-		}
+		inputs = append(inputs, "zz = "+v+"; zz["+v+"] = "+v, "zz = "+v+"; zz[0] = zz; zz[zz] = zz; println(zz); zz == zz")
 		inputs = append(inputs, "zz = "+v+"; zz++; ++zz; zz--; --zz", "zz = "+v+"; del(zz); del(zz.k); del(zz[0]); del(zz[nil])",
 			"zz = "+v+"; zz[0] = 1", "zz = "+v+"; zz.k = 1", "zz = "+v+"; zz[-1] = 1",
 			"for zz = "+v+" { 1 }", "for "+v+" { break }", "if "+v+" { 1 } else { 2 }", v+"("+v+")", v+"()", v+".k", v+"."+`"k"`,
@@ -326,9 +322,6 @@ func TestWildPrograms(t *testing.T) {
 				n.S = rapid.SampledFrom([]string{"0", "1", "63", "64", "9223372036854775807", "4611686018427387904", "1000000"}).Draw(rt_, "lit")
 			}
 		})
-		for i := repairSelfStore(stmts); i > 0; i-- {
-			pbt.Excluded(kInPlace)
-		}
 		var inputs []string
 		for _, s := range stmts {
 			inputs = append(inputs, gen.Print([]*gen.Node{s}, gen.PrintOptions{}))
@@ -421,10 +414,6 @@ func TestMutatedExamples(t *testing.T) {
 		src = strings.ReplaceAll(src, " (", "(") // keep calls calls
 		src = strings.ReplaceAll(src, " [", "[")
 		accepted := front.Parse(src, false).Accepted()
-		if textStoresVariable(src) {
-			pbt.Excluded(kInPlace)
-			return
-		}
 		parsed := runCase(rt_, "mutated-example", Case{Inputs: []string{src}})
 		lbl := "mutated:rejected-by-parser"
 		if accepted {
@@ -443,7 +432,7 @@ func FuzzEval(f *testing.F) {
 		f.Add("zz = " + p + "; zz[0:1] * zz / zz % zz << zz")
 	}
 	f.Fuzz(func(t *testing.T, in string) {
-		if len(in) > 1500 || strings.Contains(in, "read") || strings.Contains(in, "sleep") || textStoresVariable(in) {
+		if len(in) > 1500 || strings.Contains(in, "read") || strings.Contains(in, "sleep") {
 			return
 		}
 		runCase(t, "fuzz", Case{Inputs: []string{in}})
